@@ -5,6 +5,7 @@ import (
 	"go/ast"
 	"go/token"
 	"go/types"
+	"os"
 	"strings"
 )
 
@@ -148,13 +149,66 @@ func (fc *FuncCtx) execBlock(st *State, list []ast.Stmt) flow {
 		if cur == nil {
 			break
 		}
+		fc.runHints(cur, s, "before")
 		r := fc.execStmt(cur, s)
 		f.brk = append(f.brk, r.brk...)
 		f.cont = append(f.cont, r.cont...)
 		cur = r.next
+		if cur != nil {
+			fc.runHints(cur, s, "after")
+		}
 	}
 	f.next = cur
 	return f
+}
+
+// stmtText returns the whitespace-normalised source text of a statement.
+func (fc *FuncCtx) stmtText(s ast.Stmt) string {
+	p0, p1 := fc.eng.fset.Position(s.Pos()), fc.eng.fset.Position(s.End())
+	if !p0.IsValid() {
+		return ""
+	}
+	src, ok := fc.eng.overlay[p0.Filename]
+	if !ok {
+		if fc.eng.srcCache == nil {
+			fc.eng.srcCache = map[string][]byte{}
+		}
+		if src, ok = fc.eng.srcCache[p0.Filename]; !ok {
+			src, _ = os.ReadFile(p0.Filename)
+			fc.eng.srcCache[p0.Filename] = src
+		}
+	}
+	if p0.Offset < 0 || p1.Offset > len(src) || p0.Offset > p1.Offset {
+		return ""
+	}
+	return strings.Join(strings.Fields(string(src[p0.Offset:p1.Offset])), " ")
+}
+
+// runHints proves and then assumes the intermediate assertions anchored at statement s.
+func (fc *FuncCtx) runHints(st *State, s ast.Stmt, when string) {
+	if fc.contract == nil || len(fc.contract.Asserts) == 0 {
+		return
+	}
+	var txt string
+	for _, h := range fc.contract.Asserts {
+		if h.When != when {
+			continue
+		}
+		if txt == "" {
+			txt = fc.stmtText(s)
+		}
+		if !strings.HasPrefix(txt, strings.Join(strings.Fields(h.Anchor), " ")) {
+			continue
+		}
+		h.used = true
+		sc := &specCtx{names: st.names, old: fc.entry, pos: s.End(), pkg: fc.pkg.Types}
+		if when == "before" {
+			sc.pos = s.Pos()
+		}
+		g := fc.evalSpecBool(st, h.Clause.Expr, sc)
+		fc.emit(st, "assert", "intermediate assertion "+when+" `"+h.Anchor+"`", g, s.Pos(), h.Clause.Text)
+		st.assume(g)
+	}
 }
 
 func (fc *FuncCtx) execStmt(st *State, s ast.Stmt) flow {
